@@ -247,3 +247,17 @@ prop("C17",
           "failing storage / reopen; after EVERY op: reported size, counter map, cache files, main storage; non-trivial = history > 5 ops; distinct by history",
      trusted=["FSTree and the kernel file system under the cache and the main storage are exercised, not modelled here (C10-C13)"],
      assumptions=["scheduler fairness (every cached address is eventually picked once the storage accepts writes) is assumed, not proved"])
+
+
+# --- drop-in property definitions: lib/propdefs/Cxx.py (each calls prop(...) and may append to ENGINES) ---
+def _load_propdefs():
+    import glob
+    import os
+    d = os.path.join(os.path.dirname(os.path.abspath(__file__)), "propdefs")
+    for f in sorted(glob.glob(os.path.join(d, "C*.py"))):
+        with open(f) as fh:
+            exec(compile(fh.read(), f, "exec"), {"prop": prop, "ENGINES": ENGINES, "NOT_CLAIMED": NOT_CLAIMED,
+                                                   "META_RULE": META_RULE, "PROPS": PROPS})
+
+
+_load_propdefs()
